@@ -258,11 +258,10 @@ func partB() {
 // ---- KV metadata ----
 
 type kvmdCase struct {
-	Name     string
-	Del, NI  bool
-	Exp      *int64 // unix seconds
-	NilMD    bool
-	Expected bool
+	Name    string
+	Del, NI bool
+	Exp     *int64 // unix seconds
+	NilMD   bool
 }
 
 func (k kvmdCase) Build() *store.KVMetadata {
@@ -471,7 +470,14 @@ func runShapes(cf storeCfg, shapes []txShape, kvs []kvmdCase, mds []txmdCase) {
 		// proto conversion of the whole transaction
 		if p := lib.Catch(func() {
 			back := schema.TxFromProto(schema.TxToProto(rtx))
-			if d := hdrDiff(rtx.Header(), back.Header()); d != "" {
+			ha, hb := *rtx.Header(), *back.Header()
+			if ha.Metadata != nil && ha.Metadata.HasTruncatedTxID() {
+				if t, _ := ha.Metadata.GetTruncatedTxID(); t == 0 { // outside the proto message's domain, see partB
+					ha.Metadata, hb.Metadata = nil, nil
+					c.Add("B_proto_truncated_txid_0_not_compared", 1)
+				}
+			}
+			if d := hdrDiff(&ha, &hb); d != "" {
 				viol("proto-roundtrip tx "+sig, "TxFromProto(TxToProto(tx)) header: "+d, rp)
 			}
 			for i, e := range back.Entries() {
@@ -483,7 +489,11 @@ func runShapes(cf storeCfg, shapes []txShape, kvs []kvmdCase, mds []txmdCase) {
 		}); p != "" {
 			viol("panic proto tx "+sig, p, rp)
 		}
-		rh, err := dst.ReplicateTx(ctx, exp, false, false)
+		var rh *store.TxHeader
+		if p := lib.Catch(func() { rh, err = dst.ReplicateTx(ctx, exp, false, false) }); p != "" {
+			viol("panic export-replicate "+sig, "ReplicateTx of an honest ExportTx output: "+p, rp)
+			return
+		}
 		if err != nil {
 			fail("ReplicateTx: " + err.Error())
 			return
